@@ -87,6 +87,28 @@ fn c19() {
     println!("NONE {}", cases);
 }
 
+/// C19 (one block): several declarations of one property inside one rule block or one style attribute: the last important one
+/// wins if there is one, otherwise the last one
+fn c19_block() {
+    let cols = [("#ff0000", (255u8, 0u8, 0u8)), ("#00ff00", (0, 255, 0)), ("#0000ff", (0, 0, 255))];
+    let mut cases = 0u64;
+    for n in 2..=3usize { for mask in 0..(1u32 << n) { for inline in [false, true] {
+        let mut block = String::new();
+        let mut want = None; let mut want_imp = false;
+        for k in 0..n {
+            let imp = mask & (1 << k) != 0;
+            block.push_str(&format!("color:{}{};", cols[k].0, if imp { " !important" } else { "" }));
+            if imp || !want_imp { want = Some(cols[k].1); want_imp = want_imp || imp; }
+        }
+        let (css, html) = if inline { (String::new(), format!("<p style='{}'>x</p>", block)) } else { (format!("p{{{}}}", block), "<p>x</p>".to_string()) };
+        cases += 1;
+        let cfg = match config::rich().add_css(&css) { Ok(c) => c.use_doc_css(), Err(_) => continue };
+        let got = colour_of(cfg, &html);
+        if got != want { found("c19_block", &format!("css={} html={}", css, html), &format!("colour {:?}, expected {:?}", got, want)); }
+    }}}
+    println!("NONE {}", cases);
+}
+
 /// C19 (inheritance): a child's own winning declaration must beat any inherited colour
 fn c19_inherit() {
     let sels_parent = ["#pp", "div.k", "div"];
@@ -433,6 +455,7 @@ fn main() {
         "bnd_c09" => bounded::bnd_c09(),
         "c19" => c19(),
         "c19_inherit" => c19_inherit(),
+        "c19_block" => c19_block(),
         "dbg" => dbg(),
         "dbgcss" => dbgcss(),
         "c16_trivial" => c16_trivial(),
